@@ -63,7 +63,7 @@ PROFILES = {
                 configs="one", boom=(0, 1), activities=True, overlap=True),
     "C10": dict(nreq=(1, 2), mutation=(1, 4), variants=True, reps=1,
                 configs="two", boom=(0, 1), nonfinite=(1, 6),
-                corruption=True),
+                corruption=True, shared_errors=True),
     "C16": dict(nreq=(1, 2), mutation=(1, 3), variants=True, reps=1,
                 configs="all", boom=(1, 8), stacks=True, overlap=True),
 }
@@ -218,7 +218,7 @@ def _finish_request(draws, spec, req, idx, profile, rs, tier):
                                                  nonfinite=req.nonfinite),
                                  root_value=req.root)
         nf = fs.weighted((4, 3, 2, 1, 1, 1), "n_faults")
-        kinds = ["err", "null", "errx", "errs"]
+        kinds = ["err", "null", "errx", "errs", "errpp"]
         boom_on = bool(profile.get("boom", (0, 1))[0]) and fs.chance(
             *profile["boom"], "boom_on")
         if boom_on:
@@ -240,6 +240,15 @@ def _finish_request(draws, spec, req, idx, profile, rs, tier):
             cand = [p for p, what in base.positions if what == "field"]
             if cand:
                 req.faults[cand[fs.below(len(cand), "boom_at")]] = kinds[-1]
+        if profile.get("shared_errors") and not boom_on \
+                and not req.nonfinite and fs.chance(1, 8, "shared_error"):
+            cand = [p for p, what in base.positions if what == "field"]
+            if len(cand) >= 2:
+                a = fs.below(len(cand), "shared_a")
+                b = fs.below(len(cand) - 1, "shared_b")
+                b = b if b < a else b + 1
+                req.faults = {cand[a]: "errsh", cand[b]: "errsh"}
+                req.variant = "shared-error"
         req.exp = expected_response(
             spec, op, World(spec, req.wseed, req.faults,
                             nonfinite=req.nonfinite), root_value=req.root)
@@ -628,6 +637,17 @@ def _execute(config, bundle, spec, req, sched, policy):
             recs.append(tr)
         if len(recs) == 1:
             return recs[0]
+        shape = (req.wseed >> 7) % 3 if len(recs) >= 3 else 0
+        if shape == 1:
+            # stacks of stacks: dispatch order is that of the flattened list
+            return MultiInstrumentation(
+                MultiInstrumentation(*recs[:2]), *recs[2:])
+        if shape == 2:
+            return MultiInstrumentation(
+                recs[0], MultiInstrumentation(*recs[1:-1]), recs[-1]) \
+                if len(recs) >= 4 else MultiInstrumentation(
+                    MultiInstrumentation(recs[0]),
+                    MultiInstrumentation(*recs[1:]))
         return MultiInstrumentation(*recs)
 
     world = World(spec, req.wseed, req.faults, nonfinite=req.nonfinite)
@@ -662,6 +682,32 @@ def _evaluate(res, prop, config, req, out, hooks):
             ("C08",), "hang",
             (config, "worker-deadlock") if "blocked" in why else (config,),
             why or "quiescent but result not done"))
+        return
+    if req.variant == "shared-error":
+        # One ResolverError instance raised by two fields of the request: the
+        # data must be as specified; each failing position needs its own
+        # error entry (C10).  Kept apart from the ordinary error oracles so
+        # that a finding here has a key of its own.
+        if out.status != "ok":
+            V.append(Violation(
+                ("C10",), "entrypoint_raised",
+                ("shared-resolver-error-instance", type(out.exc).__name__),
+                repr(out.exc)))
+            return
+        d = oracles.first_diff(exp.data, out.result.data)
+        if d:
+            V.append(Violation(("C04", "C08"), "data_mismatch",
+                               (config, d[0]), "shared error: %r" % (d,)))
+        got = sorted(
+            (tuple(e.get("path") or ()) for e in
+             (out.result.response().get("errors") or [])), key=repr)
+        want = sorted((e["path"] for e in exp.errors), key=repr)
+        if got != want:
+            V.append(Violation(
+                ("C10",), "null_error_bijection",
+                ("shared-resolver-error-instance", "paths"),
+                "the same ResolverError instance raised at %r: errors carry "
+                "paths %r" % (want, got)))
         return
     if req.variant == "normal":
         if exp.crash:
